@@ -291,6 +291,8 @@ func (env *Env) eval(e Expr, hint types.Type) Val {
 		return env.evalBin(x, hint)
 	case *EQuant:
 		return env.evalQuant(x)
+	case *ELam:
+		return env.evalLam(x)
 	case *ELet:
 		v := env.eval(x.X, nil)
 		if env.bound && v.Addr == "" {
@@ -751,6 +753,38 @@ func isNilLit(e Expr) bool {
 	return ok && l.Val == "nil"
 }
 
+// evalLam: `mapof i T :: body` denotes the total map sending every i to body. It is introduced as a fresh array
+// constant with its pointwise definition as a (triggered) axiom; this is a conservative extension (such a map
+// exists whatever the body is, and the body cannot mention the new constant).
+func (env *Env) evalLam(x *ELam) Val {
+	vc := env.vc
+	if env.bound {
+		efail("mapof under a binder is not supported")
+	}
+	kt := env.resolveType(x.Var.Type)
+	name := "q_" + x.Var.Name
+	n := env.with(x.Var.Name, Val{T: kt, C: []string{name}})
+	n.bound = true
+	vc.qdepth++
+	body := func() Val {
+		defer func() { vc.qdepth-- }()
+		return n.eval(x.Body, nil)
+	}()
+	if len(body.C) != 1 || body.Addr != "" {
+		efail("mapof body must be a scalar value")
+	}
+	at := &ArrT{kt, body.T}
+	lam := vc.fresh("lam_"+x.Var.Name, vc.sort1(at))
+	def := "(= (select " + lam + " " + name + ") " + body.C[0] + ")"
+	if vc.mode == ModeInt {
+		if ni, ok := numOf(kt); ok && !ni.mathI && !ni.float && ni.bits < 64 {
+			def = "(=> " + vc.inRange(name, ni.bits, ni.signed) + " " + def + ")"
+		}
+	}
+	vc.axiom("(forall ((" + name + " " + vc.sort1(kt) + ")) (! " + def + " :pattern ((select " + lam + " " + name + "))))")
+	return Val{T: at, C: []string{lam}}
+}
+
 func (env *Env) evalQuant(x *EQuant) Val {
 	vc := env.vc
 	n := env
@@ -990,6 +1024,34 @@ func (env *Env) evalCall(x *ECall, hint types.Type) Val {
 			vc.ufun("box_"+sanitize(cs[0].sort), []string{cs[0].sort}, "Int")
 			un := vc.ufun("unbox_"+sanitize(cs[0].sort), []string{"Int"}, cs[0].sort, v.C[1])
 			return Val{T: it, C: []string{un}}
+		case "unbox":
+			// unbox(i, "T"): the value of the single-component Go type T stored in interface value i (meaningful when
+			// istype(i, "T")); the same box/unbox function pair that MakeInterface uses for that representation sort
+			// The first argument may also be the integer payload word of an interface (its `.val` part, e.g. a ghost map
+			// holding the payload words of stored interface values).
+			if len(x.Args) != 2 {
+				efail("unbox(x, \"T\") expects two arguments")
+			}
+			v := env.eval(x.Args[0], nil)
+			ts, ok := x.Args[1].(*EStr)
+			if !ok {
+				efail("unbox(x, \"T\") expects a string literal type")
+			}
+			tt := vc.prog.typeByString(ts.Val, env.pkg)
+			if tt == nil {
+				efail("unknown type %s", ts.Val)
+			}
+			cs := vc.flat(tt)
+			if len(cs) != 1 {
+				efail("unbox: %s is not a single-component type", ts.Val)
+			}
+			word := v.C[0]
+			if _, isI := v.T.Underlying().(*types.Interface); isI && len(v.C) == 2 {
+				word = v.C[1]
+			}
+			vc.ufun("box_"+sanitize(cs[0].sort), []string{cs[0].sort}, "Int")
+			un := vc.ufun("unbox_"+sanitize(cs[0].sort), []string{"Int"}, cs[0].sort, word)
+			return Val{T: tt, C: []string{un}}
 		case "ediv", "emod":
 			// ediv(a, b), emod(a, b): floor division and non-negative remainder of mathematical integers for b > 0
 			// (SMT-LIB div/mod). Unlike the Go operators / and % (truncated, encoded with a sign case split) they
